@@ -69,7 +69,7 @@ P("C15", "other", True, KB,
 P("C16", "other", True, "bounded contract check (the vectorised NumPy bodies are outside the VC generator's subset)",
   "Bounded: all binary event pairs up to T<=8 against definition-level ES / ECA counting formulas, exchange / shift / rescale relations, symmetrisation table, threshold extraction.",
   "No unbounded proof obligations exist for this property; stated in DESIGN.md.",
-  "B: bounded/c16.py.")
+  "B: bounded/c16.py.", extra="NOP")
 P("C17", "proof", True, KB,
   "Proved for every random draw (draws are havoc): the geographical rewiring kernels I-III keep the graph simple (symmetric 0/1, zero diagonal), keep the edge table consistent and duplicate-free, keep every row sum (degree; point-update lemma), and only swap when the documented conditions hold (disjoint old links, absent new links, C1/C2 within eps, equal degree pairs for III); overwriteAdjacency writes exactly the cross block and nothing else; the cross-link set/rewire kernels keep the cross block binary, the link table consistent and every cross row sum. Bounded: generators and rewirings through the public API over seeds.",
   "Termination of rejection loops is not claimed; igraph generators are dependencies; column sums of the cross block are bounded-only.",
@@ -104,6 +104,7 @@ EXPLANATION = {expl!r}
 ASSUMPTIONS = ASSUME_COMMON + {assume!r}
 NOT_DECIDED = {notdec!r}
 EXTRA = {extra!r}
+HAS_P = EXTRA != "NOP"
 
 
 def jobs(tier):
@@ -112,6 +113,11 @@ def jobs(tier):
 
 def structural(tier):
     return shared.structural(PROP, EXTRA)
+
+
+def replay_refuted(result, build):
+    from contracts import replays
+    return replays.replay(result, build)
 
 
 def canaries(tier):
